@@ -131,4 +131,4 @@ package jet
 //@ frame {C11,C10} stores-any CallArgs only-in (*Template).*, (*CommandNode).append
 //@ frame {C11,C10} stores-any BlockParameterList only-in (*Template).*
 //@ frame {C11} stores-any Set only-in NewSet, WithCache, WithSafeWriter, WithDelims, WithCommentDelims, WithTemplateNameExtensions, DevelopmentMode, (*Set).AddGlobal
-//@ frame {C11} stores-global * only-in init, init#1, resolveIndex, embedfs.init, httpfs.init, multi.init, utils.init
+//@ frame {C11} stores-global * only-in init, init#1, embedfs.init, httpfs.init, multi.init, utils.init
